@@ -19,6 +19,7 @@ import (
 var errExternal = map[string]bool{
 	"go/parser.ParseFile": true, "go/parser.ParseDir": true, "go/format.Node": true,
 	"golang.org/x/tools/go/packages.Load": true,
+	"go/build.Import":                     true, "(*go/build.Context).Import": true, "(*go/build.Context).ImportDir": true, "go/build.ImportDir": true,
 }
 
 func returnsError(fn *types.Func) bool {
@@ -71,6 +72,18 @@ func (e *Env) errSites(pkgs []*packages.Package) []errSite {
 				fn := calleeFunc(pkg.TypesInfo, call)
 				if returnsError(fn) && inErrScope(fn) {
 					out = append(out, errSite{pkg, fd, call, fn, append([]ast.Node{}, stack...)})
+				}
+				// a call through a function value (a hook field, a local that holds one of
+				// several look-up functions) whose last result is an error
+				if fn == nil {
+					if tv, ok := pkg.TypesInfo.Types[call.Fun]; ok && !tv.IsType() && !tv.IsBuiltin() {
+						if sig, ok := tv.Type.Underlying().(*types.Signature); ok && sig.Results().Len() > 0 &&
+							types.Identical(sig.Results().At(sig.Results().Len()-1).Type(), types.Universe.Lookup("error").Type()) {
+							if _, isLit := ast.Unparen(call.Fun).(*ast.FuncLit); !isLit {
+								out = append(out, errSite{pkg, fd, call, nil, append([]ast.Node{}, stack...)})
+							}
+						}
+					}
 				}
 				return true
 			})
@@ -181,8 +194,18 @@ func (e *Env) RErr(pkgs []*packages.Package, floorN int) {
 	sites := e.errSites(pkgs)
 	for _, s := range sites {
 		info := s.pkg.TypesInfo
-		key := fmt.Sprintf("error of %s checked in %s", shortFunc(s.fn), load.FuncName(s.fd))
+		callee := "the function value " + types.ExprString(s.call.Fun)
+		if s.fn != nil {
+			callee = shortFunc(s.fn)
+		}
+		key := fmt.Sprintf("error of %s checked in %s", callee, load.FuncName(s.fd))
 		pos := e.Prog.Pos(s.call.Pos())
+		if s.fn == nil && e.Prog.File(s.call.Pos()) == "resolve.go" {
+			// the package builder forked from go/ast collects import errors in its error list, as
+			// upstream does; that code is compared with upstream by R-FORK
+			e.Run.OK("R-ERR", key, pos, "collected in the package builder's error list (upstream design, R-FORK)")
+			continue
+		}
 		parent := s.stack[len(s.stack)-2]
 		switch p := parent.(type) {
 		case *ast.ReturnStmt:
